@@ -216,6 +216,23 @@ func scenarios(w *bufio.Writer) {
 		n.op("X 666", func() { n.d.OnTransaction(Tx(666)) })
 		endRun(w, mon, n)
 	}
+	// D20 (repaired): a node that has become primary of view 1 gets its own PrepareRequest of that view back (as after a
+	// restart, from a recovery message) before it proposes: it must not answer it with a PrepareResponse - that overwrote the
+	// request in its own (the primary's) slot and the next PrepareResponse panicked in onPrepareResponse
+	{
+		mon := begin(4, -1, 0)
+		n := mkScenNode(mon, 0, mkVals(4), -1, w)
+		n.start(0)
+		for _, i := range []uint16{1, 2, 3} {
+			n.recv(&Payload{dbft.ChangeViewType, 1, 0, i, chView{1, 0, 0}})
+		}
+		own := &Payload{dbft.PrepareRequestType, 1, 1, 0, prepReq{7000000, 3, nil}}
+		n.recv(own)
+		n.recv(&Payload{dbft.PrepareResponseType, 1, 1, 2, prepResp{own.Hash()}})
+		n.recv(&Payload{dbft.PrepareResponseType, 1, 1, 3, prepResp{own.Hash()}})
+		fmt.Fprintf(w, "NOTE D20 view=%d commitSent=%v\n", n.d.ViewNumber, n.d.CommitSent())
+		endRun(w, mon, n)
+	}
 	// C16: a subscribed backup receives the proposal (with a transaction it has to fetch) and only then the
 	// new-transaction notification: it must not ask for a view change, and answers once the transaction arrives
 	{
